@@ -33,7 +33,8 @@ impl Visitor<Print> for PrintLinter {
         for print_arg in &print.args {
             if let PrintArg::Expression(expr_pos) = print_arg {
                 let type_definition = expr_pos.expression_type();
-                if let ExpressionType::UserDefined(_) = type_definition {
+                // neither a record nor a whole array (name without subscripts) can be printed
+                if let ExpressionType::UserDefined(_) | ExpressionType::Array(_) = type_definition {
                     return Err(LintError::TypeMismatch.at(expr_pos));
                 }
             }
